@@ -114,6 +114,7 @@ class Z3Real:
         self.vnodes = {}    # key -> R var node
         self.iatoms = {}
         self.fapps = {}
+        self.funcs = {}
 
     def var(self, node):
         _, name, idx = node.node
@@ -182,12 +183,13 @@ class Z3Real:
             elif t == 'ite':
                 r = z3.If(memo[n[1]], memo[n[2]], memo[n[3]])
             elif t == 'f':
-                k = (n[1],) + tuple(id(a) for a in n[2:])
-                r = self.fapps.get(k)
-                if r is None:
-                    r = z3.Real('%s!%d' % (n[1], len(self.fapps)))
-                    self.fapps[k] = r
-                    self.fapps[('node', len(self.fapps))] = x
+                # uninterpreted function application (congruence is decided by the solver)
+                fn = self.funcs.get((n[1], len(n) - 2))
+                if fn is None:
+                    fn = z3.Function('uf_' + n[1], *([z3.RealSort()] * (len(n) - 1)))
+                    self.funcs[(n[1], len(n) - 2)] = fn
+                r = fn(*[memo[a] for a in n[2:]])
+                self.fapps[(n[1],) + tuple(id(a) for a in n[2:])] = r
             elif t == 'b':
                 r = z3.BoolVal(n[1])
             elif t == 'ic':
@@ -354,9 +356,10 @@ def _check_once(claim, hyps, region_conds=(), timeout_ms=20000, want_model=True)
             vals.append((node.node[1], node.node[2], _val_to_fraction(v)))
         fv = []
         for k, zv in Z.fapps.items():
-            if k[0] == 'node':
-                continue
-            fv.append((k[0], _val_to_fraction(m.eval(zv, model_completion=True))))
+            try:
+                fv.append((k[0], _val_to_fraction(m.eval(zv, model_completion=True))))
+            except Exception:   # noqa: BLE001
+                pass
         iv = {}
         for a, zv in Z.iatoms.items():
             iv[a] = _val_to_fraction(m.eval(zv, model_completion=True))
